@@ -18,6 +18,7 @@ using Str = std::string;
 
 struct Case {
     std::vector<uint8_t> bytes;
+    int                  gen2{0}; // 1: operation 38 is "merge a sized-but-empty temporary" (absent in older replay files: 0)
 };
 
 // ------------------------------------------------------------------------------------------------ model
@@ -456,6 +457,7 @@ struct Runner {
     pbt::Ctx    &ctx;
     Str          trace;
     bool         interesting{false};
+    int          gen2{0};
 
     // a target: library node + model node + root index
     struct Tgt {
@@ -1056,6 +1058,40 @@ struct Runner {
                 trace += "self-assign;";
                 break;
             }
+            case 38:
+                if (gen2 != 0) { // += / Merge of a temporary container that was constructed with a size and never filled (it owns storage, holds nothing)
+                    Tgt            t    = pick_target();
+                    const bool     obj  = e.chance(60);
+                    const unsigned size = 1 + e.below(9);
+                    const unsigned how  = e.below(4);
+                    VC             tmp{obj ? ValueType::Object : ValueType::Array, SizeT(size)};
+                    MV             src;
+                    src.k = obj ? MK::Obj : MK::Arr;
+                    if (how < 2) { // operator+=
+                        if (!(t.m->k == MK::Obj && src.k == MK::Obj)) {
+                            append_model(*t.m, src);
+                        }
+                        if (how == 0) {
+                            *t.v += Memory::Move(tmp);
+                        } else {
+                            *t.v += static_cast<const VC &>(tmp);
+                        }
+                        trace += how == 0 ? "+=move(sized-empty);" : "+=copy(sized-empty);";
+                    } else { // Merge: arrays concatenate, objects merge, an Undefined receiver becomes an array
+                        MV &m = *t.m;
+                        if (m.k == MK::Undef) {
+                            m.k = MK::Arr;
+                        }
+                        if (how == 2) {
+                            t.v->Merge(Memory::Move(tmp));
+                        } else {
+                            t.v->Merge(static_cast<const VC &>(tmp));
+                        }
+                        trace += how == 2 ? "Merge(move sized-empty);" : "Merge(copy sized-empty);";
+                    }
+                    break;
+                }
+                // fall through
             default: { // directly constructed value then converted in place
                 Tgt t = pick_target();
                 Str s = kStrs[e.below(13)];
@@ -1126,15 +1162,18 @@ struct H {
     static const char *name() { return "C12 Value as a JSON document"; }
     static rc::Gen<Case> gen() {
         using namespace rc;
-        return gen::map(gen::resize(400, gen::container<std::vector<uint8_t>>(gen::arbitrary<uint8_t>())), [](std::vector<uint8_t> b) {
-            Case c;
-            c.bytes = std::move(b);
-            return c;
-        });
+        return gen::map(gen::tuple(gen::resize(400, gen::container<std::vector<uint8_t>>(gen::arbitrary<uint8_t>())), pbt::pick<int>({0, 1, 1})),
+                        [](std::tuple<std::vector<uint8_t>, int> t) {
+                            Case c;
+                            c.bytes = std::get<0>(t);
+                            c.gen2  = std::get<1>(t);
+                            return c;
+                        });
     }
     // coverage-guided mode: the bytes are the entropy
     static bool from_fuzz(const uint8_t *d, size_t n, Case &c) {
         c.bytes.assign(d, d + n);
+        c.gen2 = 1;
         return true;
     }
     static std::string to_text(const Case &c) {
@@ -1146,6 +1185,7 @@ struct H {
             hex += b;
         }
         kv.put("bytes", hex);
+        kv.put("gen2", c.gen2);
         return kv.text();
     }
     static Case from_text(const std::string &t) {
@@ -1155,13 +1195,14 @@ struct H {
         for (size_t i = 0; i + 1 < hex.size(); i += 2) {
             c.bytes.push_back(uint8_t(strtoul(hex.substr(i, 2).c_str(), nullptr, 16)));
         }
+        c.gen2 = int(kv.geti("gen2", 0));
         return c;
     }
     static void run(const Case &c, pbt::Ctx &ctx) {
         Entropy            e(c.bytes);
         pbt::Leaky<World>  world;
         Model              md;
-        Runner             r{e, *world.w, md, ctx, "", false};
+        Runner             r{e, *world.w, md, ctx, "", false, c.gen2};
         unsigned           nops = 1 + e.below(60);
         for (unsigned s = 0; s < nops; ++s) {
             size_t mark = r.trace.size();
